@@ -147,6 +147,12 @@ OnBegin(ev) ==
   /\ subst' = {} /\ plain' = {}
   /\ UNCHANGED <<viol, detail>>
 
+\* the pairs of N that conflict with a pair of A.  Operators with parameters on purpose: TLC evaluates an argument once,
+\* whereas a LET-bound set is re-evaluated at every use (a union of thousands of pairs inside a quantifier body took
+\* hours on a long-lived instance)
+FunConf(N, A) == {p \in N : \E q \in A : q[1] = p[1] /\ q[2] # p[2]}
+InjConf(N, A) == {p \in N : \E q \in A : q[2] = p[2] /\ q[1] # p[1]}
+
 OnProcess(ev) ==
   IF ev.outcome # "ok" THEN
     /\ viol' = viol \cup {V(IF ev.outcome = "panic" THEN "NoPanic" ELSE "NoOutput", ev)}
@@ -168,10 +174,8 @@ OnProcess(ev) ==
       \* second components); a clause is reported when a call adds a conflict
       FunDef(S) == Cardinality(S) - Cardinality({q[1] : q \in S})
       InjDef(S) == Cardinality(S) - Cardinality({q[2] : q \in S})
-      bFun    == IF FunDef(all) > FunDef(subst)
-                 THEN {p \in new : \E q \in all : q[1] = p[1] /\ q[2] # p[2]} ELSE {}
-      bInj    == IF InjDef(all) > InjDef(subst)
-                 THEN {p \in new : \E q \in all : q[2] = p[2] /\ q[1] # p[1]} ELSE {}
+      bFun    == IF FunDef(all) > FunDef(subst) THEN FunConf(new, all) ELSE {}
+      bInj    == IF InjDef(all) > InjDef(subst) THEN InjConf(new, all) ELSE {}
       same    == {x.a : x \in {y \in strs : y.pol = "must" /\ y.a = y.b /\ y.na >= 4}}
       bPlain  == IF same \ plain # {} /\ Cardinality(plain \cup same) >= 2 THEN same ELSE {}
       found   == (IF bShape # {} THEN {"SameShape"} ELSE {})
